@@ -124,7 +124,9 @@ func VF_C14_Effect() {
 		sent := 0
 		for step := 0; step < 3; step++ {
 			size := x.Size()
-			switch vf.Choice("op", 5) {
+			switch vf.Choice("op", 6) {
+			case 5: // an empty batch: accepted, numbered and pushed like every other operation
+				_, e = x.InsertMany(vf.Int("pos", 0, size))
 			case 0:
 				_, e = x.Insert(vf.Int("pos", 0, size), "i"+string(rune('0'+step)))
 			case 1:
@@ -167,7 +169,9 @@ func VF_C14_Effect() {
 	for step := 0; step < 3; step++ {
 		arr := child(x, "arr")
 		size := vf.Concretize(arr.snapshot().(*jsonArray).size)
-		switch vf.Choice("op", 5) {
+		switch vf.Choice("op", 6) {
+		case 5:
+			_, e = arr.InsertToArray(vf.Int("pos", 0, size))
 		case 0:
 			_, e = arr.InsertToArray(vf.Int("pos", 0, size), "i"+string(rune('0'+step)))
 		case 1:
